@@ -685,7 +685,10 @@ pub fn project_lines(out: &mut impl Write, rng: &mut Rng, b: &Built, z: &TimeZon
             if leap60 {
                 // the last second of the minute before `u`, written as second 60: it denotes `u` itself when
                 // `u` starts a minute, else the start of the next minute
-                local = local - local.rem_euclid(60) - 1;
+                local = match local.checked_sub(local.rem_euclid(60) + 1) {
+                    Some(x) => x,
+                    None => continue,
+                };
             }
             if let Some(mut f) = fields_of(local, leap60) {
                 f.6 = (u as u32) % 1_000_000_000;
